@@ -629,6 +629,12 @@ def main(argv):
                 results.append(dict(query=f"TWIN (publication weakened to Relaxed) {who} x proto: stale {target} drain", result=r2, seconds=round(dt2, 3)))
                 if r2 != "sat":
                     raise Inconclusive("non-vacuity twin is not sat: the encoding cannot see the ordering")
+                # second twin: the collector's wait (compare-exchange on the cold count) weakened to Relaxed
+                r3, dt3, wit3, _ = build_and_solve(evs[who], evs["proto"], target,
+                                                   weaken=lambda role, e: role == "c" and e["cls"] == "count" and e["kind"] == "cas")
+                results.append(dict(query=f"TWIN (collector's wait weakened to Relaxed) {who} x proto: stale {target} drain", result=r3, seconds=round(dt3, 3)))
+                if r3 != "sat":
+                    raise Inconclusive("non-vacuity twin (acquire side) is not sat: the encoding cannot see the ordering")
     except Inconclusive as e:
         print("E5 INCONCLUSIVE:", e)
         return 2, dict(events=evs, results=results)
